@@ -232,6 +232,44 @@ pub fn encf(name: &str, bits: &[u8]) -> Value {
     }
 }
 
+/// One Encoder method call described by a record [m, ...args]; false if the call returned an error.
+#[cfg(feature = "alloc")]
+pub fn enc_call(e: &mut minicbor::Encoder<Vec<u8>>, c: &Value) -> bool {
+    let m = c["m"].as_str().unwrap_or("");
+    let int = || -> i128 { let mag = get_u64(&c["mag"]) as i128; if c["neg"].as_bool().unwrap_or(false) { -1 - mag } else { mag } };
+    let r = match m {
+        "u8" => e.u8(int() as u8).map(|_| ()), "u16" => e.u16(int() as u16).map(|_| ()), "u32" => e.u32(int() as u32).map(|_| ()),
+        "u64" => e.u64(int() as u64).map(|_| ()), "i8" => e.i8(int() as i8).map(|_| ()), "i16" => e.i16(int() as i16).map(|_| ()),
+        "i32" => e.i32(int() as i32).map(|_| ()), "i64" => e.i64(int() as i64).map(|_| ()),
+        "int" => match Int::try_from(int()) { Ok(i) => e.int(i).map(|_| ()), Err(_) => return false },
+        "bool" => e.bool(c["b"].as_bool().unwrap()).map(|_| ()),
+        "null" => e.null().map(|_| ()), "undefined" => e.undefined().map(|_| ()),
+        "simple" => e.simple(c["i"].as_u64().unwrap() as u8).map(|_| ()),
+        "char" => match char::from_u32(c["i"].as_u64().unwrap() as u32) { Some(ch) => e.char(ch).map(|_| ()), None => return false },
+        "tag" => e.tag(minicbor::data::Tag::new(get_u64(&c["n"]))).map(|_| ()),
+        "array" => e.array(get_u64(&c["n"])).map(|_| ()), "map" => e.map(get_u64(&c["n"])).map(|_| ()),
+        "bytes" => e.bytes(&get_bytes(&c["b"])).map(|_| ()),
+        "str" => match String::from_utf8(get_bytes(&c["b"])) { Ok(st) => e.str(&st).map(|_| ()), Err(_) => return false },
+        "begin_array" => e.begin_array().map(|_| ()), "begin_map" => e.begin_map().map(|_| ()),
+        "begin_bytes" => e.begin_bytes().map(|_| ()), "begin_str" => e.begin_str().map(|_| ()), "end" => e.end().map(|_| ()),
+        "f32" => { let b = get_bytes(&c["bits"]); e.f32(f32::from_bits(u32::from_be_bytes([b[0], b[1], b[2], b[3]]))).map(|_| ()) }
+        "f64" => { let b = get_bytes(&c["bits"]); let mut a = [0u8; 8]; a.copy_from_slice(&b); e.f64(f64::from_bits(u64::from_be_bytes(a))).map(|_| ()) }
+        _ => return false
+    };
+    r.is_ok()
+}
+#[cfg(feature = "alloc")]
+pub fn enc_calls(calls: &[Value]) -> Value {
+    let mut e = minicbor::Encoder::new(Vec::new());
+    for c in calls { if !enc_call(&mut e, c) { return json!({"p":"err","cls":"enc","pos":e.writer().len()}) } }
+    let b = e.into_writer();
+    // determinism: the same calls again must give the same bytes
+    let mut e2 = minicbor::Encoder::new(Vec::new());
+    for c in calls { enc_call(&mut e2, c); }
+    if e2.into_writer() != b { return json!({"p":"nondeterministic"}) }
+    json!({"p":"ok","v":{"k":"enc","b":bytes(&b)},"pos":b.len()})
+}
+
 /// Dispatch: op name + input record -> observation.
 pub fn run_op(fam: &str, name: &str, input: &Value) -> Value {
     guarded(|| {
@@ -239,6 +277,10 @@ pub fn run_op(fam: &str, name: &str, input: &Value) -> Value {
         match fam {
             "acc" => acc(name, &get_bytes(&input["buf"]), input["pos"].as_u64().unwrap_or(0) as usize),
             "dec" => dec_intlike(name, &get_bytes(&input["buf"]), input["pos"].as_u64().unwrap_or(0) as usize),
+            #[cfg(feature = "alloc")]
+            "enc" => enc_calls(std::slice::from_ref(input)),
+            #[cfg(feature = "alloc")]
+            "encseq" => enc_calls(input["calls"].as_array().unwrap()),
             #[cfg(feature = "alloc")]
             "encf" => encf(name, &get_bytes(&input["bits"])),
             "int_from" => int_from(name, input["neg"].as_bool().unwrap(), get_u128(&input["mag"])),
